@@ -1551,7 +1551,11 @@ func runC24History(rc *RunCtx) (*Violation, error) {
 	}
 	cfg := DriverCfg{Buckets: all[:nb], Keys: k,
 		WBucket: 4, WVersioning: 2, WPut: 10, WGet: 2, WDelete: 4, WDeleteVersion: 2, WMultiDelete: 1, WCopy: 12, WAppend: 3, WMultipart: 12, WTagging: 2, WList: 2,
-		CondWrites: true,
+		// no ETag-conditional writes here: a cross-storage copy of a multipart
+		// source gets a plain MD5 ETag (recorded finding copy-differs:etag:multi-part-source,
+		// checked by the cross-storage-copy scenario); an If-Match built from the
+		// model's ETag would only re-report that finding under another name
+		CondWrites: false,
 		BodySizes:  []int{0, 1, 17, 300, 1024, 4097, 70000},
 		Oracles:    map[string]bool{OContent: true, OErrKind: true}}
 	d := NewDriver(rc, sys.routed, cfg)
